@@ -121,13 +121,30 @@ int main(int argc, char **argv)
             int nu = rng() % 3, nc = 1 + rng() % 3;
             for (int i = 0; i < nu; ++i) m->addUnits(rUnits());
             for (int i = 0; i < nc; ++i) m->addComponent(rComponent(m, 2));
-            // a few equivalences between variables of different components
+            // equivalences between variables of different components at any depth: chains, stars and CYCLES
             std::vector<VariablePtr> vars;
-            for (size_t i = 0; i < m->componentCount(); ++i)
-                for (size_t j = 0; j < m->component(i)->variableCount(); ++j) vars.push_back(m->component(i)->variable(j));
-            for (int e = 0; e < 2 && vars.size() > 1; ++e) {
+            std::vector<ComponentPtr> todo;
+            for (size_t i = 0; i < m->componentCount(); ++i) todo.push_back(m->component(i));
+            while (!todo.empty()) {
+                auto c = todo.back();
+                todo.pop_back();
+                for (size_t j = 0; j < c->variableCount(); ++j) vars.push_back(c->variable(j));
+                for (size_t j = 0; j < c->componentCount(); ++j) todo.push_back(c->component(j));
+            }
+            int ne = rng() % 6;
+            for (int e = 0; e < ne && vars.size() > 1; ++e) {
                 auto a = vars[rng() % vars.size()], b = vars[rng() % vars.size()];
                 if (a != b && a->parent() != b->parent()) Variable::addEquivalence(a, b);
+            }
+            if (vars.size() >= 3 && rng() % 2) {
+                // a triangle when three variables of three different components exist
+                for (size_t x = 0; x + 2 < vars.size(); ++x)
+                    if (vars[x]->parent() != vars[x + 1]->parent() && vars[x + 1]->parent() != vars[x + 2]->parent() && vars[x]->parent() != vars[x + 2]->parent()) {
+                        Variable::addEquivalence(vars[x], vars[x + 1]);
+                        Variable::addEquivalence(vars[x + 1], vars[x + 2]);
+                        Variable::addEquivalence(vars[x + 2], vars[x]);
+                        break;
+                    }
             }
             std::string before = printer->printModel(m);
             auto mc = m->clone();
